@@ -13,7 +13,7 @@ func c04Specs(tier string) []*Spec {
 			small = small[:5]
 		}
 		specs = append(specs, &Spec{Weight: wt, ID: "C04", Name: name, Cfg: cfg, Keys: keys, Vals: bs("x"), MaxDepth: depth, MaxMaint: maint, Strict: true,
-			Alphabet: a.Ops, Oracles: []Oracle{oracleReads(pr), oracleHashes(), oracleProofs(small, false), oracleFresh(oracleReads(pr), oracleHashes())}})
+			Alphabet: a.Ops, Oracles: []Oracle{oracleReads(pr), oracleHashes(), oracleVersionsLive(keys[0]), oracleProofs(small, false), oracleFresh(oracleReads(pr), oracleHashes())}})
 	}
 	full := Alpha{Writes: true, Save: true, Reopen: []reopenVar{{0, true, 0}}, DelTo: true, LVFO: true, Exports: true, ReadAll: true}
 	narrow := Alpha{Writes: true, NoRemove: true, Save: true, DelTo: true, ReadAll: true}
